@@ -48,6 +48,13 @@ def gen_provisions(rng, W, ind, depth, out, provs, used_nums):
             out.append('  ' * (ind + 1) + 'CROSSHEADING ' + W.words(1, 2))
         elif r < 0.60:
             out.append('  ' * (ind + 1) + W.words(1, 2) + ' {{>#%s %s}} ' % (rng.choice(['commencement', 'sec_99', 'x', 'sec_1', 'nowhere']), W.words(1, 2)) + W.words(1, 2))
+        elif r < 0.66:
+            # the same inline constructs over and over, from a small pool, some spelled out with attributes and some bare: what one
+            # occurrence carries (a title, a refersTo, a class) says nothing about another occurrence - in the same provision or elsewhere
+            pool = ['{{abbr{title Akoma Ntoso} AKN}}', '{{abbr AKN}}', '{{abbr{title other} AKN}}', '{{term{refersTo #akn} AKN}}', '{{term AKN}}', '{{def AKN}}',
+                    '{{def{refersTo #akn} AKN}}', '{{inline.x AKN}}', '{{inline AKN}}', '{{>#sec_1 AKN}}', '{{> AKN}}', '{{em AKN}}', '{{+{class new} AKN}}', '{{+ AKN}}',
+                    '{{IMG logo.png AKN}}', '{{IMG logo.png}}', '{{*AKN}}', '**AKN**']
+            out.append('  ' * (ind + 1) + ' '.join([W.words(1, 2)] + [rng.choice(pool) for _ in range(rng.randint(1, 3))] + [W.words(1, 2)]))
         elif r < 0.72:
             # footnotes that stay inside the provision: a reference always has its block right after its paragraph (so the nearest
             # matching block is its own, alone and in context); markers come from a small pool, so other provisions reuse them; and now
